@@ -17,6 +17,9 @@ META = {
         "precedence lists are duplicate-free (a precedence order lists each value once)",
         "entry-wise set updates are judged at the entry level on scratch copies (they do not preserve dense semantics)"],
 }
+META["rule"] += "; round 7: 'medium' histories (entries of more than 1000 row ids; grow, derive an index that may share storage, grow both; every live bystander re-read after each step); entry-wise set updates on receivers with long entries and operands drawn from the receiver's own lists; mappings with a default factory handed to reindexed (the mapping object must come back unchanged)"
+for _t in META["require"]:
+    META["require"][_t] = list(META["require"][_t]) + ['class:entries_of_more_than_1000_row_ids', 'set_update:operand_shares_rows_with_the_receiver']
 ASPECT = "C06"
 
 
